@@ -134,6 +134,15 @@ func GenFS(r *core.Rand, dir string, cfg *FSCfg) *FSLayout {
 		if r.Chance(1, 4) {
 			remote = lp
 		}
+		if cfg.Decoys && r.Chance(1, 10) {
+			// the only frame under this GOPATH is a go-test generated main that exists locally (a kept work
+			// directory): it is the sole witness of its root, is mapped like any file and keeps its class
+			f := fmt.Sprintf("gp%dpkg/github.com/kept/work/_test/_testmain.go", i)
+			writeFile(lp+"/src/"+f, "package main\n")
+			addFrame(FSFrame{Remote: remote + "/src/" + f, Local: lp + "/src/" + f, Rel: f, Import: "main", Class: FSStdlib, Exists: true, Pkg: "main", Explains: remote, TestMain: true})
+			l.RemoteGOPATH[remote] = lp
+			continue
+		}
 		used := false
 		// a directory of which one referenced file is absent locally and its sibling exists; now and then these two
 		// are the only frames under this root, and the absent one sorts first or last
